@@ -754,6 +754,19 @@ fn run_node_record(seq: &[(u8, usize)], inputs: &[(String, Vec<u8>)]) -> Option<
     let cfg = NodeCfg { v6: false, read_only: false, table: 3, store: false };
     let mut b = single::build(&cfg, 0, 1);
     let node = single::node_addr(false);
+    // in half of the sequences the node's contacts send every reply twice (valid datagrams, duplicated)
+    if seq[0].1 % 2 == 0 {
+        let universe: std::sync::Arc<Vec<([u8; 20], std::net::SocketAddr)>> = std::sync::Arc::new((0..3).map(|i| (single::contact_id(i), single::contact_addr(i, false))).collect());
+        for p in b.peers.iter_mut() {
+            for i in 0..3 {
+                if p.addr() == single::contact_addr(i, false) {
+                    let mut r = crate::sim::peers::Responder::new(single::contact_addr(i, false), single::contact_id(i), universe.clone());
+                    r.duplicate_replies = true;
+                    *p = Box::new(r);
+                }
+            }
+        }
+    }
     let mut t = b.ready_ms;
     for (src, i) in seq {
         b.sc.actions.push((When::At(t), Action::Inject { from: single::client_addr(*src as usize), to: node, bytes: inputs[*i].1.clone(), tag: String::new() }));
